@@ -177,13 +177,14 @@ def _profiler(frame, event, arg):
 
 
 def run_unit(name, fn, max_paths=200000, max_seconds=600, sample_limit=2, trace_functions=True,
-             max_failures=3, timeout_ms=60000):
+             max_failures=3, timeout_ms=60000, prefer='fresh'):
     """symbolic exploration of fn(env); returns UnitResult"""
     import sys
     global _profile_funcs
     res = UnitResult(name)
     t0 = time.time()
     c = core.new_ctx(timeout_ms)
+    c.prefer = prefer
     envbox = {}
 
     def body():
@@ -220,7 +221,23 @@ def run_unit(name, fn, max_paths=200000, max_seconds=600, sample_limit=2, trace_
             res.discharged += len(claims)
             r0 = z3.unsat
         else:
-            r0, m = ctx.model(disj)
+            # joint query first; if the solver cannot decide it, decide each negated claim on its own (equivalent
+            # to the joint disjunction, and much cheaper for 30 memory / register claims); first sat model wins
+            r0, m = ctx.model(disj, quick=True)
+            if r0 == z3.unknown:
+                parts = []
+                for ng in neg:
+                    sg = z3.simplify(ng)
+                    if not z3.is_false(sg):
+                        parts.append(sg)
+                r0, m = z3.unsat, None
+                for sg in parts:
+                    ri, mi = ctx.model(sg)
+                    if ri == z3.sat:
+                        r0, m = ri, mi
+                        break
+                    if ri == z3.unknown:
+                        r0 = z3.unknown
         if r0 == z3.unsat:
             if len(res.samples) < sample_limit and nontrivial:
                 res.samples.append({'unit': name, 'path_decisions': len(ctx.stack),
